@@ -1327,6 +1327,15 @@ ares_status_t ares_send_query(ares_server_t *requested_server,
   query->conn = conn;
   conn->total_queries++;
 
+  /* The event thread (if in use) may be asleep on a timeout computed before
+   * this query existed -- indefinitely when the query reused an idle
+   * connection and so changed no socket interest.  If this query now has the
+   * earliest deadline, wake the thread so it recomputes its timeout. */
+  if (ares_slist_node_first(channel->queries_by_timeout) ==
+      query->node_queries_by_timeout) {
+    ares_event_thread_wake_channel(channel);
+  }
+
   /* We just successfully enqueud a query, see if we should probe downed
    * servers. */
   if (probe_downed_server) {
